@@ -85,17 +85,13 @@ func (this *CosmosHandler) MakeDepositProposal(service *native.NativeService) (*
 	if err != nil {
 		return nil, fmt.Errorf("Cosmos MakeDepositProposal, unmarshal proof err: %v", err)
 	}
+	if len(proofValue.Kp) == 0 {
+		return nil, fmt.Errorf("Cosmos MakeDepositProposal, Kp is nil")
+	}
 	prt := ProofRuntime()
-	if len(proofValue.Kp) != 0 {
-		err = prt.VerifyValue(&proof, myHeader.Header.AppHash, proofValue.Kp, proofValue.Value)
-		if err != nil {
-			return nil, fmt.Errorf("Cosmos MakeDepositProposal, proof error: %s", err)
-		}
-	} else {
-		err = prt.VerifyAbsence(&proof, myHeader.Header.AppHash, string(proofValue.Value))
-		if err != nil {
-			return nil, fmt.Errorf("Cosmos MakeDepositProposal, proof error: %s", err)
-		}
+	err = prt.VerifyValue(&proof, myHeader.Header.AppHash, proofValue.Kp, proofValue.Value)
+	if err != nil {
+		return nil, fmt.Errorf("Cosmos MakeDepositProposal, proof error: %s", err)
 	}
 	data := common.NewZeroCopySource(proofValue.Value)
 	txParam := new(scom.MakeTxParam)
